@@ -391,7 +391,7 @@ def run(ctx):
     for c in ctx.corpus():
         done, obs = run_history(DiGraph, pool, c["init"], c["ops"])
         items.append(({"init": c["init"], "ops": done}, obs, "corpus"))
-    n_random = ctx.budget(900, 12000)
+    n_random = ctx.budget(900, 6000)
     for _ in range(n_random):
         n = rng.choice([3, 4, 5, 6, 6])
         case, obs = gen_history(rng, DiGraph, pool, n, rng.choice([4, 6, 8, 10, 12, 12]))
